@@ -360,7 +360,7 @@ func isMutexType(t types.Type) (rw bool, ok bool) {
 	if !isN || n.Obj().Pkg() == nil || n.Obj().Pkg().Path() != "sync" {
 		return false, false
 	}
-	switch n.Obj().Name() {
+	switch nm(n.Obj()) {
 	case "RWMutex":
 		return true, true
 	case "Mutex":
@@ -492,7 +492,7 @@ func (a *lockAnalysis) opsOf(in ssa.Instruction) []lockOp {
 	if sc := cc.StaticCallee(); sc != nil && sc.Signature.Recv() != nil && len(cc.Args) > 0 {
 		if _, isM := isMutexType(derefType(sc.Signature.Recv().Type())); isM {
 			var op lockOp
-			switch sc.Name() {
+			switch nm(sc) {
 			case "Lock":
 				op = lockOp{acquire: true, mode: modeW}
 			case "RLock":
